@@ -13,7 +13,7 @@ use proptest::prelude::*;
 use serde::{Deserialize, Serialize};
 use std::rc::Rc;
 
-pub const RULE: &str = "(1) every built-in (all names of get_built_in_function_idents() except print / time_now) applied to every argument tuple of a boundary pool (NaN, +-inf, +-0, 2^53, +-1e30, 1e15, fractions, negatives; empty / ASCII / non-ASCII / numeric-looking / unit strings; empty, NaN-containing, nested, string and 30-element mixed lists; records; well- and ill-typed lambdas of arity 0/1/2/rest; built-ins as values): exhaustive for 0, 1 and 2 arguments, a 14-value sub-pool for 3 arguments, random tuples for 3-5 arguments; (2) grammar-generated typed programs with ill-typed noise and JSON inputs incl. __blots_function objects whose source is generated, mutated, blank or garbage; (2b) sessions of separately parsed and evaluated texts sharing heap and bindings (REPL / wasm style) in which long, late-failing functions (defined in one text or arriving as JSON inputs, with non-ASCII text before the failing position) are called from short later texts; (2c) inputs maps in the serde form of SerializableValue (how the wasm driver receives inputs) with function bodies that are blank, comments, statements, garbage or late-failing, converted with to_value and called; (3b) each nesting construct (curried lambdas, applied lambdas, conditionals, lists, records, calls, parenthesised operators, do-blocks, via-lambdas, commented lists under lambdas, negations) nested 1..48 deep around a short and an over-long payload; (3c) failing one-line programs of every length from a few bytes to 6 KB (error reports of every size); (3) token- and byte-level mutants of the repository's examples, benches and README code blocks; (4) random UTF-8 weighted to the grammar's alphabet, up to 4 KiB, bracket depth <= 64. Every stage runs on each: get_pairs, AST conversion with and without comments, evaluation of every statement, validate / serialise / stringify of every result and binding, Display of every error plus span-inside-own-source, format_expr at four widths, the WASM formatting driver, expr_to_source, and for 2% the real CLI (file, -i). Violation = panic, abort, signal, exit 101, or an error span outside its text. Non-trivial = the case reached evaluation or is an enumerated built-in call; distinct by input text.";
+pub const RULE: &str = "(1) every built-in (all names of get_built_in_function_idents() except print / time_now) applied to every argument tuple of a boundary pool (NaN, +-inf, +-0, 2^53, +-1e30, 1e15, fractions, negatives; empty / ASCII / non-ASCII / numeric-looking / unit strings; empty, NaN-containing, nested, string and 30-element mixed lists; records; well- and ill-typed lambdas of arity 0/1/2/rest; built-ins as values): exhaustive for 0, 1 and 2 arguments, a 14-value sub-pool for 3 arguments, random tuples for 3-5 arguments; (2) grammar-generated typed programs with ill-typed noise and JSON inputs incl. __blots_function objects whose source is generated, mutated, blank or garbage; (2b) sessions of separately parsed and evaluated texts sharing heap and bindings (REPL / wasm style) in which long, late-failing functions (defined in one text or arriving as JSON inputs, with non-ASCII text before the failing position) are called from short later texts; (2c) inputs maps in the serde form of SerializableValue (how the wasm driver receives inputs) with function bodies that are blank, comments, statements, garbage or late-failing, converted with to_value and called; (3b) each nesting construct (curried lambdas, applied lambdas, conditionals, lists, records, calls, parenthesised operators, do-blocks, via-lambdas, commented lists under lambdas, negations) nested 1..48 deep around a short and an over-long payload; (3d) every parameter-list shape (0-4 required / optional parameters in any order, with and without a rest parameter) called with 0-6 arguments directly, through spreads and by every higher-order form; (3c) failing one-line programs of every length from a few bytes to 6 KB (error reports of every size); (3) token- and byte-level mutants of the repository's examples, benches and README code blocks; (4) random UTF-8 weighted to the grammar's alphabet, up to 4 KiB, bracket depth <= 64. Every stage runs on each: get_pairs, AST conversion with and without comments, evaluation of every statement, validate / serialise / stringify of every result and binding, Display of every error plus span-inside-own-source, format_expr at four widths, the WASM formatting driver, expr_to_source, and for 2% the real CLI (file, -i). Violation = panic, abort, signal, exit 101, or an error span outside its text. Non-trivial = the case reached evaluation or is an enumerated built-in call; distinct by input text.";
 pub const ASSUMPTIONS: &[&str] = &[
     "resource exhaustion is not a crash: range spans in (2*10^6, 2^32], error-swallowing recursive sort_by callbacks and unbounded recursion through slow paths are excluded by construction or counted as inconclusive (allocation-failure marker, per-case watchdog)",
     "the WASM evaluate glue cannot run natively (JsValue); everything it calls in blots-core is covered, including the conversion of serde-deserialised inputs (2c)",
@@ -541,7 +541,7 @@ fn serde_inputs_case(tape: &[u16]) -> Case {
     for i in 0..(1 + t.pick(3)) {
         let body = match t.pick(4) {
             0 => FN_SOURCES[t.pick(FN_SOURCES.len())].to_string(),
-            1 => ["", " ", "\n", "// c", "output x = 1", "x = 1", "1 +", "(", "a\nb", "\u{feff}", "x => x"][t.pick(11)].to_string(),
+            1 => ["", " ", "\n", "// c", "output x = 1", "x = 1", "1 +", "(", "a\nb", "\u{feff}", "x => x", "x + 1 // c", "// c\nx", "x // c\n// d", "x + 1 // c\ny", "[x, // c\n 1]", "x\n// c"][t.pick(17)].to_string(),
             2 => LONG_FAILING_FNS[t.pick(LONG_FAILING_FNS.len())].to_string(),
             _ => ["x + 1", "a + nope", "[x, x] via (q => q)", "do {\n  return x\n}", "x.k"][t.pick(5)].to_string(),
         };
@@ -830,6 +830,39 @@ pub fn run(ctx: &mut Ctx) {
         }
     }
     ctx.run_enum(&Pipeline, long_lines.into_iter(), false);
+    // (3d) every parameter-list shape (0-4 required / optional parameters in any order, with
+    // and without a rest parameter) x 0-6 arguments, passed directly, through a spread, and by
+    // each higher-order form
+    let mut arity = Vec::new();
+    for n in 0..=4usize {
+        for mask in 0..(1usize << n) {
+            for rest in [false, true] {
+                let mut params: Vec<String> = (0..n).map(|i| if mask >> i & 1 == 1 { format!("p{}?", i) } else { format!("p{}", i) }).collect();
+                let mut reads: Vec<String> = (0..n).map(|i| format!("p{}", i)).collect();
+                if rest {
+                    params.push("...r".into());
+                    reads.push("r".into());
+                }
+                let def = format!("f = ({}) => [{}]", params.join(", "), reads.join(", "));
+                let mut calls: Vec<String> = Vec::new();
+                for k in 0..=6usize {
+                    let args: Vec<String> = (1..=k).map(|i| i.to_string()).collect();
+                    calls.push(format!("f({})", args.join(", ")));
+                    calls.push(format!("f(...[{}])", args.join(", ")));
+                    if k >= 1 {
+                        calls.push(format!("f({}, ...[])", args.join(", ")));
+                    }
+                }
+                for c in ["[10, 20] via f", "map([10, 20], f)", "[10] where f", "filter([10, 20], f)", "reduce([1, 2], f, 0)", "sort_by([2, 1], f)", "5 into f", "every([1], f)", "some([1], f)", "count_by([1, 2], f)", "[[1, 2], [3]] via f", "arity(f)", "to_string(f)", "output f"] {
+                    calls.push(c.to_string());
+                }
+                for c in calls {
+                    arity.push(Case::Program { text: format!("{}\n{}", def, c), inputs: "{}".into(), cli: false });
+                }
+            }
+        }
+    }
+    ctx.run_enum(&Pipeline, arity.into_iter(), false);
     // (4) raw random text
     ctx.run_random(&Pipeline, prop::collection::vec(any::<u16>(), 0..900).prop_map(|t| raw_text(&t)), ctx.tier.pick(20_000, 400_000));
 }
